@@ -174,6 +174,13 @@ impl Model {
                 if (t.pk && ci == 0) || t.cols.len() <= 1 {
                     return Err("cannot drop");
                 }
+                // a column that a user-defined index mentions: dropping it must be refused (an index
+                // over a column that no longer exists would describe an object that is gone)
+                let (tn, cn) = (t.name.clone(), t.cols[ci].0.clone());
+                if self.indexes.iter().any(|i| i.table == tn && i.cols.iter().any(|c| *c == cn)) {
+                    return Err("indexed column");
+                }
+                let t = &mut self.tables[ti];
                 t.cols.remove(ci);
                 for r in t.rows.iter_mut() {
                     r.remove(ci);
@@ -383,12 +390,14 @@ fn gen_op(t: &mut Tape, m: &Model, next_key: &mut i64, o: &GenOpts) -> Option<Op
             let ti = any_table(t)?;
             let tb = &m.tables[ti];
             let cands: Vec<usize> = (0..tb.cols.len()).filter(|&c| !(tb.pk && c == 0) && (o.drop_indexed || !indexed(ti, &tb.cols[c].0))).collect();
+            let _ = &indexed;
             if cands.is_empty() || tb.cols.len() <= 1 {
                 return None;
             }
             let c = cands[t.below(cands.len())];
-            // dropping a column that an index or constraint mentions has no defined outcome here: never generated
-            if indexed(ti, &tb.cols[c].0) {
+            // a column that a CHECK constraint mentions is never dropped (no defined outcome); a column
+            // that an index mentions is (the statement must then be refused)
+            if tb.checks.iter().any(|k| k.1 == tb.cols[c].0) {
                 return None;
             }
             Some(Op::DropColumn { table: sp(t, &tb.name), col: sp(t, &tb.cols[c].0) })
@@ -620,7 +629,7 @@ impl Check for C33 {
                 skip.push(k);
             }
         }
-        let o = GenOpts { vary_case: !t.chance(1, 4), skip, invalid: true, drop_indexed: false };
+        let o = GenOpts { vary_case: !t.chance(1, 4), skip, invalid: true, drop_indexed: t.chance(1, 3) };
         let mut m = Model::default();
         let mut ops = Vec::new();
         let mut nk = 1i64;
